@@ -47,9 +47,10 @@ Theorem C08_exactly_once_observable : forall s, reachable s -> exactly_once_b (o
 Proof. exact exactly_once_obs. Qed.
 Print Assumptions C08_exactly_once_observable.
 
-(* nobody but a registered plugin is ever handed a creation request *)
+(* nobody but a registered plugin is ever handed a creation request (an instance that received one is
+   still registered, or was and has been closed since) *)
 Theorem C08_only_registered_receive : forall s p c, reachable s -> In (p, c) (recv s) ->
-  In p (active s) /\ In c (used s).
+  (In p (active s) \/ exists ids, alookup p (plugs s) = Some (PClosed ids)) /\ In c (used s).
 Proof. exact recv_only_registered. Qed.
 Print Assumptions C08_only_registered_receive.
 
@@ -83,6 +84,80 @@ Theorem C08_accepted_log_is_a_run : forall tr, accepts tr = true ->
   exists s, replay tr = inl s /\ reachable s /\ exactly_once_b (obs_of_state s) = true.
 Proof. exact accepts_exactly_once. Qed.
 Print Assumptions C08_accepted_log_is_a_run.
+
+(* ---- failing registrations: the runtime's SyncFn returns an error (the plugin's Synchronize handler fails,
+   times out, or its connection is lost during synchronisation) ---- *)
+
+(* the failure step is enabled wherever the registration stands inside the exclusive section (before or after
+   the runtime read its store); it gives the section up, the plugin is not active; afterwards any goroutine can
+   take a block and every waiting registration can run to completion *)
+Theorem C08_failed_registration_frees_section : forall s p, reachable s ->
+  (alookup p (plugs s) = Some PHoldW \/ exists ids, alookup p (plugs s) = Some (PSnapshot ids)) ->
+  exists s', step s (APFail p) = Some s' /\ reachable s' /\ writer s' = false /\ readers s' = 0 /\
+    alookup p (plugs s') = Some PFailed /\ ~ In p (active s') /\ active s' = active s /\ store s' = store s /\
+    (forall g, exists s'', step s' (AGAcquire g) = Some s'') /\
+    (forall q, alookup q (plugs s') = Some PWaitW ->
+       exists s'', steps s' [APAcquire q; APSnapshot q; APActivate q; APRelease q] = Some s'' /\ In q (active s'')).
+Proof. exact failed_registration_frees_section. Qed.
+Print Assumptions C08_failed_registration_frees_section.
+
+(* a failed registration is final: never in the section again, never active, never handed a request *)
+Theorem C08_failed_never_served : forall s p, reachable s -> alookup p (plugs s) = Some PFailed ->
+  ~ in_exclusive s p /\ ~ In p (active s) /\ (forall c, ~ In (p, c) (recv s)) /\
+  (forall a, a <> APArrive p -> In a [APAcquire p; APSnapshot p; APFail p; APActivate p; APRelease p; APClose p] -> step s a = None).
+Proof. exact failed_never_served. Qed.
+Print Assumptions C08_failed_never_served.
+
+(* whoever holds the exclusive section can always finish by itself: no reachable state has a stuck writer *)
+Theorem C08_section_always_released : forall s q, reachable s -> in_exclusive s q ->
+  exists l s', incl l [APSnapshot q; APActivate q; APRelease q] /\ steps s l = Some s' /\
+               writer s' = false /\ In q (active s').
+Proof. exact section_always_released. Qed.
+Print Assumptions C08_section_always_released.
+
+(* for ALL interleavings containing any number of failing registrations: failed plugins hold nothing and are
+   served nothing; the writer flag still means "somebody is inside the section"; exactly-once; and
+   release-enables / registration-completes hold as before *)
+Theorem C08_failing_registrations_harmless : forall l s, steps init l = Some s ->
+  (forall p, alookup p (plugs s) = Some PFailed ->
+     ~ in_exclusive s p /\ ~ In p (active s) /\ forall c, ~ In (p, c) (recv s)) /\
+  (writer s = true <-> exists p, in_exclusive s p) /\
+  exactly_once_b (obs_of_state s) = true /\
+  (readers s = 0 -> forall p, alookup p (plugs s) = Some PWaitW ->
+     (exists s', step s (APAcquire p) = Some s') \/
+     (exists q a s', q <> p /\ in_exclusive s q /\ In a [APSnapshot q; APActivate q; APRelease q] /\ step s a = Some s')) /\
+  (readers s = 0 -> writer s = false -> forall p, alookup p (plugs s) = Some PWaitW ->
+     exists s', steps s [APAcquire p; APSnapshot p; APActivate p; APRelease p] = Some s' /\ In p (active s')).
+Proof. exact failing_registrations_harmless. Qed.
+Print Assumptions C08_failing_registrations_harmless.
+
+(* a log the replay accepts ends with every block released and every plugin instance that connected either
+   registered, failed or closed: no registration is left pending *)
+Theorem C08_accepted_log_leaves_nothing_pending : forall tr, accepts tr = true ->
+  exists s, replay tr = inl s /\ readers s = 0 /\ writer s = false /\
+    forall p pc, alookup p (plugs s) = Some pc ->
+      In p (active s) \/ pc = PFailed \/ exists ids, pc = PClosed ids.
+Proof. exact accepted_all_settled. Qed.
+Print Assumptions C08_accepted_log_leaves_nothing_pending.
+
+(* ---- closed instances and re-registration under the same name.  Plugin ids are INSTANCES; name_of p is the
+   name the code knows the instance by; [listed s] = r.plugins = the live instances and the closed ones that
+   no clean-up has dropped yet ---- *)
+
+Theorem C08_closed_instance_listed_not_live : forall s z, reachable s -> In z (zombies s) ->
+  (exists ids, alookup z (plugs s) = Some (PClosed ids)) /\ ~ In z (active s) /\ In z (listed s).
+Proof. exact closed_instance_listed_not_live. Qed.
+Print Assumptions C08_closed_instance_listed_not_live.
+
+(* a fresh instance is activated while a closed one is still listed, WHATEVER their names (no hypothesis about
+   name_of: in particular name_of p = name_of z, the plugin that disconnected and registered again with no
+   request in between): the clean-up at the activation drops the closed instance and keeps the fresh one *)
+Theorem C08_reregistration_keeps_fresh_instance : forall s p z ids, reachable s -> In z (zombies s) ->
+  alookup p (plugs s) = Some (PSnapshot ids) ->
+  exists s', step s (APActivate p) = Some s' /\ reachable s' /\
+             In p (active s') /\ In p (listed s') /\ ~ In z (listed s') /\ zombies s' = [] /\ z <> p.
+Proof. exact reregistration_keeps_fresh_instance. Qed.
+Print Assumptions C08_reregistration_keeps_fresh_instance.
 
 (* ---- repeated releases: "Unblock ... Safe to call multiple times" ---- *)
 
@@ -162,6 +237,65 @@ Example C08_rejects_sync_after_stolen_release : accepts (ex_probe_log true) = fa
 Proof. vm_compute. reflexivity. Qed.
 Example C08_rejects_release_again_inside_block :
   accepts [LBlockAcq "g"; LBlockRelAgain "g"; LCreateRet "g" "c"; LStore "g" "c"; LBlockRel "g"] = false.
+Proof. vm_compute. reflexivity. Qed.
+
+(* non-vacuity of the failing-registration and re-registration theorems, and discrimination of the replay *)
+Definition ex_fail_log (released : bool) : list lev :=
+  [ LBlockAcq "g"; LCreateRet "g" "c1"; LStore "g" "c1"; LBlockRel "g";
+    LSyncEnter "bad" ["c1"]; LSyncRecv "bad" ["c1"]; LSyncRet "bad" false ] ++
+  (if released
+   then [ LSyncEnter "p" ["c1"]; LSyncRecv "p" ["c1"]; LSyncRet "p" true;
+          LBlockAcq "g"; LRecv "g" "p" "c2"; LCreateRet "g" "c2"; LStore "g" "c2"; LBlockRel "g" ]
+   else []).
+
+Example C08_accepts_failed_then_good : accepts (ex_fail_log true) = true.
+Proof. vm_compute. reflexivity. Qed.
+
+Example C08_example_failed : exists s, replay (ex_fail_log true) = inl s /\ reachable s /\
+  alookup "bad" (plugs s) = Some PFailed /\ In "p" (active s) /\ ~ In "bad" (active s) /\ In ("p", "c2") (recv s).
+Proof.
+  destruct (C08_accepted_log_is_a_run _ C08_accepts_failed_then_good) as [s [E [R _]]].
+  exists s. split; [exact E|]. split; [exact R|]. vm_compute in E. inversion E; subst s. vm_compute.
+  repeat split; auto. intros H; repeat (destruct H as [H|H]; try discriminate); auto.
+Qed.
+
+Example C08_example_fail_hypothesis : exists s, reachable s /\ alookup "bad" (plugs s) = Some (PSnapshot ["c1"]) /\
+  alookup "p" (plugs s) = Some PWaitW.
+Proof.
+  destruct (steps init [AGAcquire "g"; AGBegin "g" "c1"; AGEnd "g"; AGStore "g"; AGRelease "g"; APArrive "p"; APArrive "bad";
+                        APAcquire "bad"; APSnapshot "bad"]) as [s|] eqn:E; [|vm_compute in E; discriminate].
+  exists s. split; [eexists; exact E|]. vm_compute in E. inversion E; subst s. vm_compute. auto.
+Qed.
+
+(* the plugin "05-a" registers, disconnects, registers again (instance "05-a#2") with no request in between,
+   then a container is created: delivered to the fresh instance only *)
+Definition ex_rereg_log (delivered : bool) : list lev :=
+  [ LSyncEnter "05-a" []; LSyncRecv "05-a" []; LSyncRet "05-a" true;
+    LBlockAcq "g"; LRecv "g" "05-a" "c1"; LCreateRet "g" "c1"; LStore "g" "c1"; LBlockRel "g";
+    LClose "05-a";
+    LSyncEnter "05-a#2" ["c1"]; LSyncRecv "05-a#2" ["c1"]; LSyncRet "05-a#2" true;
+    LBlockAcq "g" ] ++ (if delivered then [ LRecv "g" "05-a#2" "c2" ] else []) ++
+  [ LCreateRet "g" "c2"; LStore "g" "c2"; LBlockRel "g" ].
+
+Example C08_accepts_reregistration : accepts (ex_rereg_log true) = true.
+Proof. vm_compute. reflexivity. Qed.
+(* a runtime that synchronises the fresh instance but never hands it the later creation is rejected *)
+Example C08_rejects_reregistered_not_served : accepts (ex_rereg_log false) = false.
+Proof. vm_compute. reflexivity. Qed.
+
+Example C08_example_reregistration : exists s, reachable s /\ In "05-a" (zombies s) /\
+  alookup "05-a#2" (plugs s) = Some (PSnapshot ["c1"]) /\ name_of "05-a#2" = name_of "05-a".
+Proof.
+  destruct (steps init [APArrive "05-a"; APAcquire "05-a"; APSnapshot "05-a"; APActivate "05-a"; APRelease "05-a";
+                        AGAcquire "g"; AGBegin "g" "c1"; AGDeliver "g" "05-a"; AGEnd "g"; AGStore "g"; AGRelease "g";
+                        APClose "05-a"; APArrive "05-a#2"; APAcquire "05-a#2"; APSnapshot "05-a#2"]) as [s|] eqn:E;
+    [|vm_compute in E; discriminate].
+  exists s. split; [eexists; exact E|]. vm_compute in E. inversion E; subst s. vm_compute. auto.
+Qed.
+
+(* NOT the code: a clean-up keyed by NAME would drop the fresh instance together with the closed one *)
+Example C08_cleanup_by_name_drops_fresh_instance :
+  drop_closed_by_name ["05-a"] ["05-a"; "05-a#2"; "07-b"] = ["07-b"].
 Proof. vm_compute. reflexivity. Qed.
 
 (* ---- non-vacuity: two goroutines create containers while two plugins register ---- *)
